@@ -107,9 +107,22 @@ def one_shape(col, n, edges, rng, variants, sample=False):
         ex = d.executor(exclude_nodes=[ids[x]])
         check_table(col, "executor_exclude", dict(ex.graph.compound_priority), cp, ids, sel, rp)
         orders.append(run_order(col, "executor_exclude", ex, ids, g, cp, sel, rp))
+    if "compose" in variants and n >= 2:
+        # a DAG obtained through compose() is one more way of obtaining the executed graph
+        import warnings
+
+        outs = [ids[i] for i in range(n) if g.out_degree(i) == 0]
+        with warnings.catch_warnings():
+            warnings.simplefilter("ignore")
+            c = d.compose("composed", [], outs, max_concurrency=1)
+        col.counters["cp_composed_dags"] += 1
+        check_table(col, "composed_dag", dict(c.graph_ids.compound_priority), cp, ids, allset, rp)
+        orders.append(run_order(col, "composed_dag", c, ids, g, cp, allset, rp))
     if "config" in variants:
         p2 = list(prios)
         rng.shuffle(p2)
+        if rng.random() < 0.5:
+            p2[rng.randrange(n)] = 0  # reconfiguring a priority to 0 is a legal value, not "unset"
         conf = {"nodes": {ids[i]: {"priority": p2[i]} for i in range(n)}}
         d.config_from_dict(conf)
         sp2 = mk_spec(n, edges, p2)
